@@ -868,13 +868,22 @@ func (m *endpointManager) resolveWorkloadEndpoints() {
 						logCxt.Infof("Old workload %v", oldWorkload)
 						logCxt.Infof("Shadowed workload %v", sWorkload)
 						if sWorkload.Name == oldWorkload.Name {
+							if pending, ok := m.pendingWlEpUpdates[sId]; ok && (pending == nil || pending.Name != sWorkload.Name) {
+								// This endpoint is itself waiting to be removed (or moved to another
+								// interface) in this batch; it must not be resurrected.
+								continue
+							}
 							if bestShadowedId.EndpointId == "" || wlIdsAscending(&sId, &bestShadowedId) {
 								bestShadowedId = sId
 							}
 						}
 					}
 					if bestShadowedId.EndpointId != "" {
-						m.pendingWlEpUpdates[bestShadowedId] = m.shadowedWlEndpoints[bestShadowedId]
+						if _, ok := m.pendingWlEpUpdates[bestShadowedId]; !ok {
+							// (A newer update of that endpoint that is still pending in this
+							// batch must not be replaced by the older shadowed copy.)
+							m.pendingWlEpUpdates[bestShadowedId] = m.shadowedWlEndpoints[bestShadowedId]
+						}
 						delete(m.shadowedWlEndpoints, bestShadowedId)
 					}
 				}
